@@ -111,6 +111,28 @@ theorem unfixed_goroutine_leak :
     reach_runSched schedCancelThenPanic Reach.init (by rfl)
   exact ⟨hr, stuck_of_stuckB hr (by rfl), by rfl, by rfl⟩
 
+/-! ### (d) NOT PROVEN — kept as the full statement (delivered as *partial*)
+
+    theorem no_deadlock (c : Cfg) (hf : c.fixed = true) (hw : 1 ≤ c.workers)
+        (hr : (writesOf c.rscript).length ≤ 2) (s : St) (h : Reach c s)
+        (hlive : result s = none ∨ aliveCount c s ≠ 0) : ∃ a, step c s a ≠ none
+
+    theorem terminates (c : Cfg) (hf : c.fixed = true) :
+        ∃ μ : St → Nat, ∀ s a s', Reach c s → step c s a = some s' → μ s' < μ s
+
+(so that every maximal run ends with the caller returned and `aliveCount = 0`).  What is missing is the
+progress argument: the invariants "at most one goroutine is between the CAS and the send of
+`onceChan.write`, and then the buffer is empty", "a goroutine blocked in `cancel` implies a runner in
+`drain(source)`", "reducer blocked on an empty open collector implies the dispatcher has not closed it",
+and the well-founded measure.  What IS proven: the negation for the code as it was (`unfixed_call_deadlocks`,
+`unfixed_goroutine_leak`) and the safety side (`collector_open_while_mappers_run`: no send on a closed
+collector).  At runtime the driver runs the fixed model under six schedulers per generated call and
+requires the caller finished and no goroutine alive, and the harness checks the real code with a hang
+watchdog and a goroutine snapshot.  Likewise the end-state equalities for "nothing cancelled"
+(`result = expected c`, `mapped = range n`, `reduced = all written values`) are checked by the monitor
+and by exact model/implementation comparison, not proven; the proven part is the conservation
+invariants above, which hold at every point of every run. -/
+
 /-! ### non-vacuity: the fixed model on the same two configurations, and a plain run -/
 
 /-- the fixed code on witness 1 under the "caller first" scheduler: the panic is re-raised, nobody is left. -/
